@@ -346,7 +346,7 @@ def run_tlc(
     coverage: bool = False,
 ) -> TlcResult:
     """Run TLC on spec_dir/module.tla with spec_dir/cfg; all scratch output goes to a temp dir."""
-    meta = tempfile.mkdtemp(prefix="eko-verif-tlc-")
+    meta = tempfile.mkdtemp(prefix="verif-eko-tlc-")
     try:
         cmd = ["java", "-XX:+UseParallelGC", "-Xmx8g", f"-Djava.io.tmpdir={meta}"]
         if depth_first:
@@ -408,7 +408,7 @@ class Check:
         self.assumptions = list(meta.get("assumptions", []))
         self.violations = []  # (fingerprint, what, replay)
         self.diagnostics = []
-        self.scratch = pathlib.Path(tempfile.mkdtemp(prefix=f"eko-verif-{self.pid}-"))
+        self.scratch = pathlib.Path(tempfile.mkdtemp(prefix=f"verif-eko-{self.pid}-"))
         self._distinct = set()
 
     # ---- bookkeeping -----------------------------------------------------------------
@@ -490,7 +490,7 @@ class Check:
         n_unlisted = 0
         n_known = 0
         noev = bool(os.environ.get("VERIF_NO_EVIDENCE"))
-        rdir = pathlib.Path(tempfile.gettempdir()) / "eko-verif-replays" if noev else VERIF / "replays"
+        rdir = pathlib.Path(tempfile.gettempdir()) / "verif-eko-replays" if noev else VERIF / "replays"
         rdir.mkdir(exist_ok=True)
         for fp, what, replay in self.violations:
             if fp in seen:
